@@ -13,6 +13,9 @@ import (
 
 func init() {
 	register(&PropertyCheck{ID: "C12", Level: "other", Run: checkC12, Canaries: []Canary{
+		{Name: "remove-will-clears-everything", Silent: true, Edits: []Edit{{"connect.go", "\treturn uint32(p.willDelayInterval)\n}\n", "\treturn uint32(p.willDelayInterval)\n}\n\n// RemoveWill removes a will message set earlier, e.g. when a prepared\n// connect packet is reused for a session that must not leave one.\nfunc (p *Connect) RemoveWill() {\n\tp.flags &^= bits(WillFlag | WillRetain | WillQoS1 | WillQoS2)\n\tp.willPayload = nil\n\tp.will = nil\n\tp.willDelayInterval = 0\n}\n"}}},
+		{Name: "adv5-D2-remove-will-leaves-qos-and-retain", Rule: "R12.7", Where: "RemoveWill", Edits: []Edit{{"connect.go", "\treturn uint32(p.willDelayInterval)\n}\n", "\treturn uint32(p.willDelayInterval)\n}\n\n// RemoveWill removes a will message set earlier, e.g. when a prepared\n// connect packet is reused for a session that must not leave one.\nfunc (p *Connect) RemoveWill() {\n\tp.flags &^= bits(WillFlag)\n\tp.willPayload = nil\n}\n"}}},
+		{Name: "adv5-D1-set-credentials-clears-the-other-flags", Rule: "R12.7", Where: "SetCredentials", Edits: []Edit{{"connect.go", "func (p *Connect) Password() []byte { return p.password }\n", "func (p *Connect) Password() []byte { return p.password }\n\n// SetCredentials sets the user name and the password in one call,\n// both are optional.\nfunc (p *Connect) SetCredentials(username string, password []byte) {\n\tp.username = wstring(username)\n\tif len(username) == 0 {\n\t\tp.username = nil\n\t}\n\tp.password = password\n\tp.flags &= bits(UsernameFlag | PasswordFlag) // reset\n\tp.flags.toggle(UsernameFlag, len(p.username) > 0)\n\tp.flags.toggle(PasswordFlag, len(p.password) > 0)\n}\n"}}},
 		{Name: "two-parameter-mutator-derives-a-flag-from-the-wrong-argument", Rule: "R12.7", Where: "SetCredentials", Edits: []Edit{{"connect.go", "func (p *Connect) Password() []byte { return p.password }\n", "func (p *Connect) Password() []byte { return p.password }\n\n// SetCredentials sets the user name and the password in one call,\n// both are optional.\nfunc (p *Connect) SetCredentials(username string, password []byte) {\n\tp.username = wstring(username)\n\tif len(username) == 0 {\n\t\tp.username = nil\n\t}\n\tp.password = password\n\tp.flags.toggle(UsernameFlag, len(p.username) > 0)\n\tp.flags.toggle(PasswordFlag, len(p.username) > 0)\n}\n"}}},
 		{Name: "setter-clears-another-field-on-a-mixed-condition", Rule: "R12.2", Where: "SetQoS", Edits: []Edit{{"publish.go", "func (p *Publish) SetQoS(v uint8) {", "func (p *Publish) SetQoS(v uint8) {\n\tif q := p.QoS(); (q == 1 || q == 2) && v == 0 {\n\t\t// at most once, the packet identifier is no longer used\n\t\tp.packetID = 0\n\t}"}}},
 		{Name: "set-password-wipes-the-previous-slice-in-place", Rule: "R12.4", Where: "SetPassword", Edits: []Edit{{"connect.go", "func (p *Connect) SetPassword(v []byte) {", "func (p *Connect) SetPassword(v []byte) {\n\t// do not leave the previous secret behind in memory\n\tfor i := range p.password {\n\t\tp.password[i] = 0\n\t}"}}},
@@ -616,6 +619,122 @@ func checkMultiParamMutators(p *Prog, c *Check) {
 				c.Bad("R12.7", cons, "-", "after the call the frame does not agree with what the accessors show: "+errs[keys[0]])
 			default:
 				c.OK("R12.7", cons, "-", "the frame carries what the accessors show; presence flags follow the values")
+			}
+		}
+	}
+	// … and on a packet that already has state: every exported mutator that is not a plain SetX(v)/AddX(…) — several
+	// parameters, or another name (`RemoveWill()`) — is called last on the "all setters" states (with and without a
+	// will): the frame must still agree with the accessors, and the accessors that change are among those the
+	// mutator changes on a fresh packet (its own fields) — it must not disturb anyone else's
+	for _, tn := range packetTypeNames() {
+		obj := p.Pkg.Scope().Lookup(tn)
+		if obj == nil {
+			continue
+		}
+		nt := obj.Type().(*types.Named)
+		var muts []string
+		ms := p.Prog.MethodSets.MethodSet(types.NewPointer(nt))
+		for i := 0; i < ms.Len(); i++ {
+			m := ms.At(i).Obj().(*types.Func)
+			sig := m.Type().(*types.Signature)
+			if !m.Exported() || sig.Results().Len() != 0 || sig.Variadic() {
+				continue
+			}
+			if _, isPtr := sig.Recv().Type().Underlying().(*types.Pointer); !isPtr {
+				continue
+			}
+			plain := (strings.HasPrefix(m.Name(), "Set") || strings.HasPrefix(m.Name(), "Add")) && sig.Params().Len() == 1
+			if plain {
+				continue
+			}
+			muts = append(muts, m.Name())
+		}
+		sort.Strings(muts)
+		if len(muts) == 0 {
+			continue
+		}
+		specs := map[string]stateSpec{}
+		for _, sp := range p.stateSpecs(tn) {
+			specs[sp.name] = sp
+		}
+		obsOf := func(sp stateSpec) (map[string]string, *packetState, string) {
+			var wp *packetState
+			if sp.will != 0 {
+				wp, _ = p.willFor(sp)
+			}
+			st, why := p.buildStateSpec(tn, sp, nil, wp)
+			if st == nil {
+				return nil, nil, "cannot build the state: " + why
+			}
+			obs, why := p.observe(tn, st.Recv, st.Mem, st.Maps, 0)
+			return obs, st, why
+		}
+		for _, m := range muts {
+			none, okN := specs["none"]
+			if !okN {
+				continue
+			}
+			f0, _, why0 := obsOf(none)
+			withM := none
+			withM.last = m
+			f1, _, why1 := obsOf(withM)
+			own := map[string]bool{}
+			if why0 == "" && why1 == "" {
+				for k, v := range f1 {
+					if f0[k] != v {
+						own[k] = true
+					}
+				}
+			}
+			for _, bn := range []string{"all", "all+will"} {
+				base, ok := specs[bn]
+				if !ok {
+					continue
+				}
+				n++
+				cons := "(*" + tn + ")." + m + " — called last on the state \"" + bn + "\""
+				a0, _, whyA := obsOf(base)
+				bm := base
+				bm.last = m
+				a1, st1, whyB := obsOf(bm)
+				if whyA != "" || whyB != "" || why0 != "" || why1 != "" {
+					c.Unk("R12.7", cons, "-", "cannot evaluate: "+whyA+whyB+why0+why1)
+					continue
+				}
+				bad := ""
+				if len(own) > 0 {
+					var keys []string
+					for k := range a1 {
+						keys = append(keys, k)
+					}
+					sort.Strings(keys)
+					for _, k := range keys {
+						if a0[k] != a1[k] && !own[k] {
+							bad = fmt.Sprintf("the call changes %s (%s → %s), which it does not touch on a fresh packet: a field not named by the call is disturbed", k, a0[k], a1[k])
+							break
+						}
+					}
+				}
+				if bad == "" {
+					errs, why := p.specErrorsForState(tn, st1, nil)
+					if why != "" {
+						c.Unk("R12.7", cons, "-", why)
+						continue
+					}
+					var keys []string
+					for k := range errs {
+						keys = append(keys, k)
+					}
+					sort.Strings(keys)
+					if len(keys) > 0 {
+						bad = "after the call the frame does not agree with what the accessors show: " + errs[keys[0]]
+					}
+				}
+				if bad != "" {
+					c.Bad("R12.7", cons, "-", bad)
+				} else {
+					c.OK("R12.7", cons, "-", "no accessor outside the mutator's own changes; the frame carries what the accessors show")
+				}
 			}
 		}
 	}
